@@ -10,6 +10,7 @@ XF = ("geometry.rs", "voronoi/generator.rs")
 U3 = tm.Fraction(3, 2 ** 52)     # gamma_3 = 3u/(1-3u) < 3 * 2^-52 with u = 2^-53 (Higham, Accuracy and Stability, Lemma 3.1 / (3.5))
 
 
+@isolated('half_space_new_real')
 def new_obligations(prefix):
     u = Unit(HS, "HalfSpace::new")
     n, p = vec("hn"), vec("hp")
@@ -30,6 +31,7 @@ def new_obligations(prefix):
     return obs, [u]
 
 
+@isolated('half_space_clip_real')
 def clip_obligations(prefix):
     u = Unit(HS, "HalfSpace::clip")
     n, p, v = vec("cn"), vec("cp"), vec("cv")
